@@ -208,7 +208,8 @@ Fixpoint last_bound (b : Z) (ops : list lsop) : Z :=
   end.
 
 Lemma run_ops_sem : forall ops ls b, 0 <= b -> inv_b b ls -> mono_from b ops ->
-  exists ls', run_ops ls ops = Ok ls' /\ b <= last_bound b ops /\ inv_b (last_bound b ops) ls' /    forall l, sem ls' l = match range_last ops l with Some m => m | None => sem ls l end.
+  exists ls', run_ops ls ops = Ok ls' /\ b <= last_bound b ops /\ inv_b (last_bound b ops) ls' /\
+    forall l, sem ls' l = match range_last ops l with Some m => m | None => sem ls l end.
 Proof.
   induction ops as [|o r IH]; intros ls b Hb Hinv Hm.
   - exists ls. simpl. split; [reflexivity|]. split; [lia|]. split; [exact Hinv|]. reflexivity.
@@ -429,4 +430,948 @@ Proof.
   destruct (process_events_ops _ _ _ H) as [Ho Hf]. split; [|exact Hf].
   intros T. unfold all_ops. eapply run_ops_app_ok; [|apply Ho].
   destruct T as [|m]; [reflexivity|]. simpl ls_of. apply (global_disable_ops _ _ _ E m).
+Qed.
+
+(* ------------------------------------------------------------------------------------------------ *)
+(* A trailing disable / type: ignore silences                                                       *)
+
+Definition sets_to (v : bool) (ops : list lsop) : Prop :=
+  Forall (fun o => match o with OSet _ m => m = v | ORange _ _ => True end) ops.
+
+Lemma last_set_app : forall a b l,
+  last_set (a ++ b) l = match last_set b l with Some v => Some v | None => last_set a l end.
+Proof.
+  induction a as [|o r IH]; intros b l; simpl.
+  - destruct (last_set b l); reflexivity.
+  - destruct o as [l' m|p m]; rewrite IH; destruct (last_set b l); reflexivity.
+Qed.
+
+Lemma sets_to_last : forall v ops l w, sets_to v ops -> last_set ops l = Some w -> w = v.
+Proof.
+  induction ops as [|o r IH]; intros l w H E; simpl in E; [discriminate|].
+  inversion H; subst. destruct o as [l' m|p m].
+  - destruct (last_set r l) eqn:E2.
+    + inversion E; subst. eapply IH; eauto.
+    + destruct (l =? l'); inversion E; subst. reflexivity.
+  - eapply IH; eauto.
+Qed.
+
+Lemma sets_to_app : forall v a b, sets_to v a -> sets_to v b -> sets_to v (a ++ b).
+Proof. intros. apply Forall_app. split; assumption. Qed.
+
+Lemma name_ops_sets : forall ic s line op dis n, sets_to dis (name_ops ic s line op dis n).
+Proof.
+  intros. unfold name_ops, sets_to.
+  destruct (accepted_name n && keep ic n); [|constructor].
+  destruct op; [repeat constructor|].
+  destruct (negb (adjust_line line n s =? line)); repeat constructor.
+Qed.
+
+Lemma names_ops_sets : forall ic s line op dis names m, sets_to dis (names_ops ic s line op dis names m).
+Proof.
+  induction names as [|n r IH]; intros m; unfold names_ops; simpl; [constructor|].
+  apply sets_to_app; [|apply IH]. destruct (m =? n)%N; [apply name_ops_sets | constructor].
+Qed.
+
+Lemma name_ops_open : forall ic s line dis n, sets_to true (name_ops ic s line true dis n).
+Proof.
+  intros. unfold name_ops, sets_to. destruct (accepted_name n && keep ic n); repeat constructor.
+Qed.
+
+Lemma names_ops_open : forall ic s line dis names m, sets_to true (names_ops ic s line true dis names m).
+Proof.
+  induction names as [|n r IH]; intros m; unfold names_ops; simpl; [constructor|].
+  apply sets_to_app; [|apply IH]. destruct (m =? n)%N; [apply name_ops_open | constructor].
+Qed.
+
+Lemma mem_n_in : forall x l, mem_n x l = true <-> In x l.
+Proof.
+  intros. unfold mem_n. rewrite existsb_exists. split.
+  - intros (y & Hy & E). apply N.eqb_eq in E. subst. exact Hy.
+  - intros H. exists x. split; [exact H | apply N.eqb_refl].
+Qed.
+
+Lemma names_ops_notin : forall ic s line op dis names m, ~ In m names ->
+  names_ops ic s line op dis names m = [].
+Proof.
+  induction names as [|n r IH]; intros m H; unfold names_ops; simpl; [reflexivity|].
+  destruct (m =? n)%N eqn:E.
+  - apply N.eqb_eq in E. subst. exfalso. apply H. left. reflexivity.
+  - simpl. apply IH. intros Hin. apply H. right. exact Hin.
+Qed.
+
+Lemma names_ops_notmem : forall ic s line op dis ns m, mem_n m ns = false ->
+  names_ops ic s line op dis (nodup_n ns) m = [].
+Proof.
+  intros. apply names_ops_notin. intros Hin. unfold nodup_n in Hin. apply nodup_In in Hin.
+  apply mem_n_in in Hin. congruence.
+Qed.
+
+Lemma cmds_ops_open : forall ic s line cmds m, sets_to true (cmds_ops ic s line true cmds m).
+Proof.
+  induction cmds as [|c r IH]; intros m; simpl; [constructor|].
+  destruct c; try (apply sets_to_app; [apply names_ops_open | apply IH]); [apply IH | constructor].
+Qed.
+
+Lemma cmds_ops_noenable : forall ic s line op cmds m, existsb (cmd_enables m) cmds = false ->
+  sets_to true (cmds_ops ic s line op cmds m).
+Proof.
+  induction cmds as [|c r IH]; intros m H; simpl in *; [constructor|].
+  apply orb_false_iff in H. destruct H as [H1 H2].
+  destruct c as [ns|ns| |]; simpl in *.
+  - apply sets_to_app; [apply names_ops_sets | apply IH; exact H2].
+  - rewrite names_ops_notmem; [|exact H1]. simpl. apply IH. exact H2.
+  - apply IH. exact H2.
+  - constructor.
+Qed.
+
+Lemma event_ops_noenable : forall ev E, trailing_enable_of E (ev_comment ev) = false ->
+  sets_to true (event_ops ev (TDis E)).
+Proof.
+  intros ev E H. unfold event_ops, trailing_enable_of in *.
+  destruct (c_body (ev_comment ev)) as [| |cmds]; try constructor.
+  destruct (c_open (ev_comment ev)); simpl in H.
+  - apply cmds_ops_open.
+  - apply cmds_ops_noenable. exact H.
+Qed.
+
+Lemma events_ops_noenable : forall D E,
+  Forall (fun ev => trailing_enable_of E (ev_comment ev) = false) D ->
+  sets_to true (events_ops D (TDis E)).
+Proof.
+  induction 1; unfold events_ops; simpl; [constructor|].
+  apply sets_to_app; [apply event_ops_noenable; assumption | assumption].
+Qed.
+
+Lemma event_ops_ign_true : forall ev, sets_to true (event_ops ev TIgn).
+Proof.
+  intros ev. unfold event_ops. destruct (c_body (ev_comment ev)); try constructor.
+  destruct (c_open (ev_comment ev)); repeat constructor.
+Qed.
+
+Lemma events_ops_ign_true : forall D, sets_to true (events_ops D TIgn).
+Proof.
+  induction D; unfold events_ops; simpl; [constructor|].
+  apply sets_to_app; [apply event_ops_ign_true | assumption].
+Qed.
+
+Lemma events_ops_app : forall a b T, events_ops (a ++ b) T = events_ops a T ++ events_ops b T.
+Proof. intros. unfold events_ops. apply flat_map_app. Qed.
+
+Lemma events_ops_cons : forall ev b T, events_ops (ev :: b) T = event_ops ev T ++ events_ops b T.
+Proof. reflexivity. Qed.
+
+Lemma trailing_disable_ops : forall ev L E, ev_comment ev = trailing_disable L E ->
+  event_ops ev (TDis E) = name_ops (ev_call ev) (ev_start ev) L false true E.
+Proof.
+  intros ev L E H. unfold event_ops. rewrite H. simpl.
+  unfold nodup_n. simpl. unfold names_ops. simpl. rewrite N.eqb_refl. rewrite !app_nil_r. reflexivity.
+Qed.
+
+Lemma contains_dict : forall ls l b, dict_get l (ls_lines ls) = Some b -> contains ls l = b.
+Proof. intros. unfold contains. rewrite H. reflexivity. Qed.
+
+Lemma filter_error_unfold : forall st rl e l0 lr,
+  e_same_file e = true -> e_line e = Some l0 -> reported_line st rl e l0 = Ok lr ->
+  filter_error st rl e =
+  Ok (negb (contains (d_ignore st) (eff_line lr))
+      && negb (contains (dis_get (d_dis st) all_errors) (eff_line lr))
+      && negb (contains (dis_get (d_dis st) (e_name e)) (eff_line lr)), Some lr).
+Proof.
+  intros st rl e l0 lr H1 H2 H3. unfold filter_error. rewrite H2, H1, H3. reflexivity.
+Qed.
+
+Lemma silences_lemma : forall g fr rl D1 D2 cev st e l0 lr L E,
+  ev_comment cev = trailing_disable L E ->
+  accepted_name E = true -> keep (ev_call cev) E = true ->
+  Forall (fun ev => trailing_enable_of E (ev_comment ev) = false) D2 ->
+  build_events g fr (D1 ++ cev :: D2) = Ok st ->
+  e_same_file e = true -> e_line e = Some l0 -> e_name e = E ->
+  reported_line st rl e l0 = Ok lr ->
+  (eff_line lr = L \/ eff_line lr = adjust_line L E (ev_start cev)) ->
+  filter_error st rl e = Ok (false, Some lr).
+Proof.
+  intros g fr rl D1 D2 cev st e l0 lr L E Hc Hacc Hkeep HD2 Hb Hsf Hl Hn Hr Hlr.
+  rewrite (filter_error_unfold _ _ _ _ _ Hsf Hl Hr).
+  destruct (build_ops _ _ _ _ Hb) as [Hops _]. specialize (Hops (TDis E)). simpl in Hops.
+  assert (Hd : dict_get (eff_line lr) (ls_lines (dis_get (d_dis st) E)) = Some true).
+  { rewrite (run_ops_lines _ _ _ Hops). unfold all_ops.
+    rewrite events_ops_app, events_ops_cons, !last_set_app.
+    destruct (last_set (events_ops D2 (TDis E)) (eff_line lr)) as [w|] eqn:E2.
+    - f_equal. eapply sets_to_last; [|exact E2]. apply events_ops_noenable. exact HD2.
+    - rewrite (trailing_disable_ops _ _ _ Hc). unfold name_ops. rewrite Hacc, Hkeep. simpl.
+      destruct (adjust_line L E (ev_start cev) =? L) eqn:E3; simpl.
+      + apply Z.eqb_eq in E3. rewrite E3 in *.
+        assert (eff_line lr = L) by (destruct Hlr; assumption). rewrite H, Z.eqb_refl. reflexivity.
+      + destruct Hlr as [H|H]; rewrite H.
+        * rewrite Z.eqb_refl. destruct (L =? adjust_line L E (ev_start cev)); reflexivity.
+        * rewrite Z.eqb_refl. reflexivity. }
+  rewrite Hn. rewrite (contains_dict _ _ _ Hd). simpl. rewrite andb_false_r. reflexivity.
+Qed.
+
+Lemma ignore_silences_lemma : forall g fr rl D1 D2 cev st e l0 lr L,
+  ev_comment cev = trailing_ignore L ->
+  build_events g fr (D1 ++ cev :: D2) = Ok st ->
+  e_same_file e = true -> e_line e = Some l0 ->
+  reported_line st rl e l0 = Ok lr ->
+  (eff_line lr = L \/ eff_line lr = ev_start cev) ->
+  filter_error st rl e = Ok (false, Some lr).
+Proof.
+  intros g fr rl D1 D2 cev st e l0 lr L Hc Hb Hsf Hl Hr Hlr.
+  rewrite (filter_error_unfold _ _ _ _ _ Hsf Hl Hr).
+  destruct (build_ops _ _ _ _ Hb) as [Hops _]. specialize (Hops TIgn). simpl in Hops.
+  assert (Hd : dict_get (eff_line lr) (ls_lines (d_ignore st)) = Some true).
+  { rewrite (run_ops_lines _ _ _ Hops). unfold all_ops. simpl.
+    rewrite events_ops_app, events_ops_cons, !last_set_app.
+    destruct (last_set (events_ops D2 TIgn) (eff_line lr)) as [w|] eqn:E2.
+    - f_equal. eapply sets_to_last; [|exact E2]. apply events_ops_ign_true.
+    - unfold event_ops. rewrite Hc. simpl.
+      destruct Hlr as [H|H]; rewrite H.
+      + rewrite Z.eqb_refl. destruct (L =? ev_start cev); reflexivity.
+      + rewrite Z.eqb_refl. reflexivity. }
+  rewrite (contains_dict _ _ _ Hd). reflexivity.
+Qed.
+
+(* ------------------------------------------------------------------------------------------------ *)
+(* Frame: adding non-open-ended comments changes only the per-line entries they write               *)
+
+Definition ls_rel (P : Z -> Prop) (a b : lineset) : Prop :=
+  ls_trans a = ls_trans b /\
+  forall l, ~ P l -> dict_get l (ls_lines a) = dict_get l (ls_lines b).
+
+Lemma ls_rel_refl : forall P a, ls_rel P a a.
+Proof. intros. split; auto. Qed.
+
+Lemma contains_rel : forall P a b l, ls_rel P a b -> ~ P l -> contains a l = contains b l.
+Proof. intros P a b l [Ht Hl] Hn. unfold contains. rewrite (Hl l Hn), Ht. reflexivity. Qed.
+
+Lemma start_range_rel : forall a b p m a', ls_trans a = ls_trans b -> start_range a p m = Ok a' ->
+  exists b', start_range b p m = Ok b' /\ ls_trans a' = ls_trans b' /\
+             ls_lines a' = ls_lines a /\ ls_lines b' = ls_lines b.
+Proof.
+  intros a b p m a' Ht H. unfold start_range in *. rewrite <- Ht.
+  destruct (p <? last (ls_trans a) (-1)); [discriminate|].
+  destruct (Bool.eqb m (Nat.odd (length (ls_trans a)))).
+  - inversion H; subst. exists b. auto.
+  - destruct (p =? last (ls_trans a) (-1)).
+    + destruct (ls_trans a) eqn:E; [discriminate|]. inversion H; subst. eexists. split; [reflexivity|]. auto.
+    + inversion H; subst. eexists. split; [reflexivity|]. auto.
+Qed.
+
+Definition writes_in (P : Z -> Prop) (o : lsop) : Prop := exists l m, o = OSet l m /\ P l.
+
+Lemma run_ops_inserted : forall P ops ops' Ad, inserted (writes_in P) ops ops' Ad ->
+  forall ls ls' a, ls_rel P ls ls' -> run_ops ls ops = Ok a ->
+  exists b, run_ops ls' ops' = Ok b /\ ls_rel P a b.
+Proof.
+  induction 1 as [|o D D' Ad Hins IH|o D D' Ad Ho Hins IH]; intros ls ls' a Hrel Hrun.
+  - simpl in *. inversion Hrun; subst. eauto.
+  - simpl in *. destruct o as [l m|p m]; simpl in *.
+    + apply (IH (set_line ls l m) (set_line ls' l m)); auto.
+      destruct Hrel as [Ht Hl]. split; [exact Ht|]. intros l1 Hn. simpl. unfold dict_set. simpl.
+      destruct (l1 =? l); auto.
+    + destruct (start_range ls p m) as [ls1|x] eqn:E; simpl in Hrun; [|discriminate].
+      destruct Hrel as [Ht Hl].
+      destruct (start_range_rel _ _ _ _ _ Ht E) as (ls1' & E' & Ht1 & Hl1 & Hl1').
+      rewrite E'. simpl. apply (IH ls1 ls1'); auto.
+      split; [exact Ht1|]. intros l1 Hn. rewrite Hl1, Hl1'. auto.
+  - destruct Ho as (l & m & -> & HP). simpl. apply (IH ls (set_line ls' l m)); auto.
+    destruct Hrel as [Ht Hl]. split; [exact Ht|]. intros l1 Hn. simpl. unfold dict_set. simpl.
+    destruct (l1 =? l) eqn:E; auto. apply Z.eqb_eq in E. subst. contradiction.
+Qed.
+
+Lemma inserted_refl : forall {A} (P : A -> Prop) l, inserted P l l [].
+Proof. induction l; constructor; auto. Qed.
+
+Lemma inserted_all : forall {A} (P : A -> Prop) l, Forall P l -> inserted P [] l l.
+Proof. induction 1; constructor; auto. Qed.
+
+Lemma inserted_app : forall {A} (P : A -> Prop) a a' x b b' y,
+  inserted P a a' x -> inserted P b b' y -> inserted P (a ++ b) (a' ++ b') (x ++ y).
+Proof. induction 1; intros; simpl; auto; constructor; auto. Qed.
+
+Lemma inserted_weaken : forall {A} (P Q : A -> Prop) a a' x,
+  (forall e, P e -> Q e) -> inserted P a a' x -> inserted Q a a' x.
+Proof. induction 2; constructor; auto. Qed.
+
+Lemma inserted_in : forall {A} (P : A -> Prop) a a' x, inserted P a a' x ->
+  forall x0, incl x x0 -> inserted (fun e => P e /\ In e x0) a a' x.
+Proof.
+  induction 1; intros x0 Hi; constructor; auto.
+  - split; auto. apply Hi. left. reflexivity.
+  - apply IHinserted. intros e He. apply Hi. right. exact He.
+Qed.
+
+Lemma events_ops_inserted : forall (Pev : event -> Prop) Q T D D' Ad,
+  (forall ev, Pev ev -> Forall Q (event_ops ev T)) ->
+  inserted Pev D D' Ad ->
+  exists Ad', inserted Q (events_ops D T) (events_ops D' T) Ad'.
+Proof.
+  intros Pev Q T D D' Ad HP. induction 1 as [|ev D D' Ad Hins [Ad' IH]|ev D D' Ad Hev Hins [Ad' IH]].
+  - exists []. constructor.
+  - exists ([] ++ Ad'). rewrite !events_ops_cons. apply inserted_app; [apply inserted_refl | exact IH].
+  - exists (event_ops ev T ++ Ad'). rewrite events_ops_cons.
+    change (events_ops D T) with ([] ++ events_ops D T).
+    apply inserted_app; [apply inserted_all; apply HP; exact Hev | exact IH].
+Qed.
+
+Lemma frame_rel : forall (Pev : event -> Prop) P T g fr D D' Ad st st',
+  (forall ev, Pev ev -> Forall (writes_in P) (event_ops ev T)) ->
+  inserted Pev D D' Ad ->
+  build_events g fr D = Ok st -> build_events g fr D' = Ok st' ->
+  ls_rel P (ls_of st T) (ls_of st' T).
+Proof.
+  intros Pev P T g fr D D' Ad st st' HP Hins Hb Hb'.
+  destruct (build_ops _ _ _ _ Hb) as [Ho _]. destruct (build_ops _ _ _ _ Hb') as [Ho' _].
+  specialize (Ho T). specialize (Ho' T). unfold all_ops in *.
+  destruct (events_ops_inserted Pev (writes_in P) T D D' Ad HP Hins) as [Ad' Hi].
+  assert (Hi2 : inserted (writes_in P) (global_ops g T ++ events_ops D T) (global_ops g T ++ events_ops D' T) ([] ++ Ad')).
+  { apply inserted_app; [apply inserted_refl | exact Hi]. }
+  destruct (run_ops_inserted _ _ _ _ Hi2 ls_empty ls_empty _ (ls_rel_refl _ _) Ho) as (b & Hb2 & Hrel).
+  rewrite Ho' in Hb2. inversion Hb2; subst. exact Hrel.
+Qed.
+
+(* adding events never makes the construction raise *)
+Lemma run_ops_deterministic : forall ls ops a b, run_ops ls ops = Ok a -> run_ops ls ops = Ok b -> a = b.
+Proof. intros. congruence. Qed.
+
+Lemma trailing_disable_event_writes : forall ev L E Ad n,
+  ev_comment ev = trailing_disable L E -> In ev Ad ->
+  Forall (writes_in (fun l => n = E /\ In l (touched_disable E L Ad))) (event_ops ev (TDis n)).
+Proof.
+  intros ev L E Ad n Hc Hin. destruct (N.eq_dec n E) as [->|Hne].
+  - rewrite (trailing_disable_ops _ _ _ Hc). unfold name_ops.
+    assert (Ht : forall l, accepted_name E && keep (ev_call ev) E = true ->
+                 In l [L; adjust_line L E (ev_start ev)] -> In l (touched_disable E L Ad)).
+    { intros l Hk Hl. unfold touched_disable. apply in_flat_map. exists ev. split; [exact Hin|]. rewrite Hk. exact Hl. }
+    destruct (accepted_name E && keep (ev_call ev) E) eqn:Hk; [|constructor].
+    destruct (negb (adjust_line L E (ev_start ev) =? L)); repeat constructor;
+      eexists; eexists; (split; [reflexivity|]); (split; [reflexivity|]); apply Ht; simpl; auto.
+  - unfold event_ops. rewrite Hc. simpl. unfold nodup_n. simpl. unfold names_ops. simpl.
+    destruct (n =? E)%N eqn:E1; [apply N.eqb_eq in E1; contradiction|]. constructor.
+Qed.
+
+Lemma trailing_disable_event_ign : forall ev L E (P : Z -> Prop),
+  ev_comment ev = trailing_disable L E -> Forall (writes_in P) (event_ops ev TIgn).
+Proof. intros ev L E P Hc. unfold event_ops. rewrite Hc. constructor. Qed.
+
+Lemma trailing_ignore_event_writes : forall ev L Ad,
+  ev_comment ev = trailing_ignore L -> In ev Ad ->
+  Forall (writes_in (fun l => In l (touched_ignore L Ad))) (event_ops ev TIgn).
+Proof.
+  intros ev L Ad Hc Hin. unfold event_ops. rewrite Hc. simpl.
+  assert (Ht : forall l, In l [L; ev_start ev] -> In l (touched_ignore L Ad)).
+  { intros l Hl. unfold touched_ignore. apply in_flat_map. exists ev. split; assumption. }
+  repeat constructor; eexists; eexists; (split; [reflexivity|]); apply Ht; simpl; auto.
+Qed.
+
+Lemma trailing_ignore_event_dis : forall ev L n (P : Z -> Prop),
+  ev_comment ev = trailing_ignore L -> Forall (writes_in P) (event_ops ev (TDis n)).
+Proof. intros ev L n P Hc. unfold event_ops. rewrite Hc. constructor. Qed.
+
+Lemma disable_frame_lemma : forall g fr rl D D' Ad L E st st',
+  inserted (fun ev => ev_comment ev = trailing_disable L E) D D' Ad ->
+  build_events g fr D = Ok st -> build_events g fr D' = Ok st' ->
+  forall e l0 lr, e_same_file e = true -> e_line e = Some l0 ->
+    reported_line st rl e l0 = Ok lr -> reported_line st' rl e l0 = Ok lr ->
+    (e_name e <> E /\ E <> all_errors) \/ ~ In (eff_line lr) (touched_disable E L Ad) ->
+    filter_error st' rl e = filter_error st rl e.
+Proof.
+  intros g fr rl D D' Ad L E st st' Hins Hb Hb' e l0 lr Hsf Hl Hr Hr' Hcase.
+  rewrite (filter_error_unfold _ _ _ _ _ Hsf Hl Hr), (filter_error_unfold _ _ _ _ _ Hsf Hl Hr').
+  pose proof (inserted_in _ _ _ _ Hins Ad (incl_refl _)) as Hins2.
+  assert (Hign : contains (d_ignore st) (eff_line lr) = contains (d_ignore st') (eff_line lr)).
+  { apply (contains_rel (fun _ => False)); [|tauto].
+    apply (frame_rel _ _ TIgn g fr D D' Ad st st') with (2 := Hins2); auto.
+    intros ev [Hc _]. eapply trailing_disable_event_ign. exact Hc. }
+  assert (Hdis : forall n, n <> E \/ ~ In (eff_line lr) (touched_disable E L Ad) ->
+            contains (dis_get (d_dis st) n) (eff_line lr) = contains (dis_get (d_dis st') n) (eff_line lr)).
+  { intros n Hn. apply (contains_rel (fun l => n = E /\ In l (touched_disable E L Ad))); [|tauto].
+    apply (frame_rel _ _ (TDis n) g fr D D' Ad st st') with (2 := Hins2); auto.
+    intros ev [Hc Hin]. apply trailing_disable_event_writes; assumption. }
+  rewrite Hign, (Hdis all_errors), (Hdis (e_name e)); [reflexivity | |].
+  - destruct Hcase as [[H1 H2]|H]; auto.
+  - destruct Hcase as [[H1 H2]|H]; auto.
+Qed.
+
+Lemma ignore_frame_lemma : forall g fr rl D D' Ad L st st',
+  inserted (fun ev => ev_comment ev = trailing_ignore L) D D' Ad ->
+  build_events g fr D = Ok st -> build_events g fr D' = Ok st' ->
+  forall e l0 lr, e_same_file e = true -> e_line e = Some l0 ->
+    reported_line st rl e l0 = Ok lr -> reported_line st' rl e l0 = Ok lr ->
+    ~ In (eff_line lr) (touched_ignore L Ad) ->
+    filter_error st' rl e = filter_error st rl e.
+Proof.
+  intros g fr rl D D' Ad L st st' Hins Hb Hb' e l0 lr Hsf Hl Hr Hr' Hcase.
+  rewrite (filter_error_unfold _ _ _ _ _ Hsf Hl Hr), (filter_error_unfold _ _ _ _ _ Hsf Hl Hr').
+  pose proof (inserted_in _ _ _ _ Hins Ad (incl_refl _)) as Hins2.
+  assert (Hign : contains (d_ignore st) (eff_line lr) = contains (d_ignore st') (eff_line lr)).
+  { apply (contains_rel (fun l => In l (touched_ignore L Ad))); [|exact Hcase].
+    apply (frame_rel _ _ TIgn g fr D D' Ad st st') with (2 := Hins2); auto.
+    intros ev [Hc Hin]. apply trailing_ignore_event_writes; assumption. }
+  assert (Hdis : forall n,
+            contains (dis_get (d_dis st) n) (eff_line lr) = contains (dis_get (d_dis st') n) (eff_line lr)).
+  { intros n. apply (contains_rel (fun _ => False)); [|tauto].
+    apply (frame_rel _ _ (TDis n) g fr D D' Ad st st') with (2 := Hins2); auto.
+    intros ev [Hc _]. eapply trailing_ignore_event_dis. exact Hc. }
+  rewrite Hign, (Hdis all_errors), (Hdis (e_name e)). reflexivity.
+Qed.
+
+Lemma plain_reported : forall st rl e l0, plain_error rl e l0 -> reported_line st rl e l0 = Ok l0.
+Proof. intros st rl e l0 H. unfold reported_line, plain_error in *. rewrite H. reflexivity. Qed.
+
+(* ------------------------------------------------------------------------------------------------ *)
+(* Converse of the decomposition: the construction raises only if some line-set history raises      *)
+
+Lemma run_ops_app_raise_l : forall a b ls x, run_ops ls a = Raise x -> run_ops ls (a ++ b) = Raise x.
+Proof. intros. rewrite run_ops_app, H. reflexivity. Qed.
+
+Lemma run_ops_app_raise_r : forall a b ls ls1 x,
+  run_ops ls a = Ok ls1 -> run_ops ls1 b = Raise x -> run_ops ls (a ++ b) = Raise x.
+Proof. intros. rewrite run_ops_app, H. simpl. exact H0. Qed.
+
+Lemma process_name_raise : forall ic s line op dis d n x,
+  process_name ic s line op dis d n = Raise x ->
+  run_ops (dis_get d n) (name_ops ic s line op dis n) = Raise x.
+Proof.
+  intros ic s line op dis d n x H. unfold process_name in H. unfold name_ops.
+  destruct (accepted_name n); simpl in *; [|discriminate].
+  destruct (keep ic n); simpl in *; [|discriminate].
+  destruct op; [|discriminate].
+  destruct (start_range (dis_get d n) line dis) as [ls'|y] eqn:E; simpl in H; [discriminate|].
+  inversion H; subst. simpl. rewrite E. reflexivity.
+Qed.
+
+Lemma process_names_raise : forall ic s line op dis names d x,
+  process_names ic s line op dis names d = Raise x ->
+  exists m, run_ops (dis_get d m) (names_ops ic s line op dis names m) = Raise x.
+Proof.
+  induction names as [|n r IH]; intros d x H; simpl in H; [discriminate|].
+  destruct (process_name ic s line op dis d n) as [d1|y] eqn:E; simpl in H.
+  - destruct (IH _ _ H) as [m Hm]. exists m. unfold names_ops. simpl.
+    eapply run_ops_app_raise_r; [eapply process_name_ops; exact E | exact Hm].
+  - inversion H; subst. exists n. unfold names_ops. simpl. rewrite N.eqb_refl.
+    apply run_ops_app_raise_l. apply process_name_raise. exact E.
+Qed.
+
+Lemma process_cmds_raise : forall ic s line op cmds d x,
+  process_cmds ic s line op cmds d = Raise x ->
+  exists m, run_ops (dis_get d m) (cmds_ops ic s line op cmds m) = Raise x.
+Proof.
+  induction cmds as [|c r IH]; intros d x H; simpl in H; [discriminate|].
+  destruct c as [ns|ns| |]; simpl.
+  - destruct (process_names ic s line op true (nodup_n ns) d) as [d1|y] eqn:E; simpl in H.
+    + destruct (IH _ _ H) as [m Hm]. exists m.
+      eapply run_ops_app_raise_r; [eapply process_names_ops; exact E | exact Hm].
+    + inversion H; subst. destruct (process_names_raise _ _ _ _ _ _ _ _ E) as [m Hm]. exists m.
+      apply run_ops_app_raise_l. exact Hm.
+  - destruct (process_names ic s line op false (nodup_n ns) d) as [d1|y] eqn:E; simpl in H.
+    + destruct (IH _ _ H) as [m Hm]. exists m.
+      eapply run_ops_app_raise_r; [eapply process_names_ops; exact E | exact Hm].
+    + inversion H; subst. destruct (process_names_raise _ _ _ _ _ _ _ _ E) as [m Hm]. exists m.
+      apply run_ops_app_raise_l. exact Hm.
+  - apply IH. exact H.
+  - discriminate.
+Qed.
+
+Lemma adjust_end_ok : forall fr e s, has_end fr e = true -> exists fr', adjust_end fr e s = Ok fr'.
+Proof.
+  intros fr e s H. unfold has_end, adjust_end in *. destruct (dict_get e (br_e2s fr)); [eauto | discriminate].
+Qed.
+
+Lemma process_event_raise : forall st ev x, process_event st ev = Raise x ->
+  exists T, run_ops (ls_of st T) (event_ops ev T) = Raise x.
+Proof.
+  intros st ev x H. unfold process_event in H.
+  match type of H with bind ?X _ = _ => destruct X as [st1|y] eqn:E1; simpl in H end.
+  - destruct (negb (ev_call ev) && has_end (d_fr st1) (ev_end ev)) eqn:Eg; [|discriminate].
+    apply andb_true_iff in Eg. destruct Eg as [_ Eg].
+    destruct (adjust_end_ok _ _ (ev_start ev) Eg) as [fr' Efr]. rewrite Efr in H. discriminate.
+  - inversion H; subst. unfold event_ops. destruct (c_body (ev_comment ev)) as [| |cmds].
+    + destruct (c_open (ev_comment ev)); [|discriminate].
+      destruct (start_range (d_ignore st) (c_line (ev_comment ev)) true) as [ig|z] eqn:E; simpl in E1; [discriminate|].
+      inversion E1; subst. exists TIgn. simpl. rewrite E. reflexivity.
+    + discriminate.
+    + match type of E1 with bind ?X _ = _ => destruct X as [d'|z] eqn:E; simpl in E1; [discriminate|] end.
+      inversion E1; subst. destruct (process_cmds_raise _ _ _ _ _ _ _ E) as [m Hm]. exists (TDis m). exact Hm.
+Qed.
+
+Lemma process_events_raise : forall evs st x, process_events st evs = Raise x ->
+  exists T, run_ops (ls_of st T) (events_ops evs T) = Raise x.
+Proof.
+  induction evs as [|ev r IH]; intros st x H; simpl in H; [discriminate|].
+  destruct (process_event st ev) as [st1|y] eqn:E; simpl in H.
+  - destruct (IH _ _ H) as [T HT]. exists T. rewrite events_ops_cons.
+    eapply run_ops_app_raise_r; [|exact HT]. apply (proj1 (process_event_ops _ _ _ E)).
+  - inversion H; subst. destruct (process_event_raise _ _ _ E) as [T HT]. exists T.
+    rewrite events_ops_cons. apply run_ops_app_raise_l. exact HT.
+Qed.
+
+Lemma global_disable_raise : forall names d x, global_disable names d = Raise x ->
+  exists m, run_ops (dis_get d m) (global_ops names (TDis m)) = Raise x.
+Proof.
+  induction names as [|n r IH]; intros d x H; simpl in H; [discriminate|].
+  destruct (start_range (dis_get d n) 0 true) as [ls|y] eqn:E; simpl in H.
+  - destruct (IH _ _ H) as [m Hm]. exists m. simpl. eapply run_ops_app_raise_r; [|exact Hm].
+    rewrite dis_get_set. destruct (m =? n)%N eqn:Emn; [|reflexivity].
+    apply N.eqb_eq in Emn. subst. simpl. rewrite E. reflexivity.
+  - inversion H; subst. exists n. simpl. rewrite N.eqb_refl. apply run_ops_app_raise_l. simpl. rewrite E. reflexivity.
+Qed.
+
+Lemma build_raise : forall g fr evs x, build_events g fr evs = Raise x ->
+  exists T, run_ops ls_empty (all_ops g evs T) = Raise x.
+Proof.
+  intros g fr evs x H. unfold build_events in H.
+  destruct (global_disable g []) as [d|y] eqn:E; simpl in H.
+  - destruct (process_events_raise _ _ _ H) as [T HT]. exists T. unfold all_ops.
+    eapply run_ops_app_raise_r; [|exact HT].
+    destruct T as [|m]; [reflexivity|]. simpl ls_of. apply (global_disable_ops _ _ _ E m).
+  - inversion H; subst. destruct (global_disable_raise _ _ _ E) as [m Hm]. exists (TDis m).
+    unfold all_ops. apply run_ops_app_raise_l. exact Hm.
+Qed.
+
+(* inserting events that only call set_line keeps the construction defined *)
+Lemma insert_sets_builds : forall (Pev : event -> Prop) g fr D D' Ad st,
+  (forall ev T, Pev ev -> Forall (writes_in (fun _ => True)) (event_ops ev T)) ->
+  inserted Pev D D' Ad -> build_events g fr D = Ok st ->
+  exists st', build_events g fr D' = Ok st'.
+Proof.
+  intros Pev g fr D D' Ad st HP Hins Hb.
+  destruct (build_events g fr D') as [st'|x] eqn:E; [eauto|]. exfalso.
+  destruct (build_raise _ _ _ _ E) as [T HT].
+  destruct (build_ops _ _ _ _ Hb) as [Ho _]. specialize (Ho T). unfold all_ops in *.
+  destruct (events_ops_inserted Pev (writes_in (fun _ => True)) T D D' Ad (fun ev H => HP ev T H) Hins) as [Ad' Hi].
+  assert (Hi2 : inserted (writes_in (fun _ => True)) (global_ops g T ++ events_ops D T) (global_ops g T ++ events_ops D' T) ([] ++ Ad')).
+  { apply inserted_app; [apply inserted_refl | exact Hi]. }
+  destruct (run_ops_inserted _ _ _ _ Hi2 ls_empty ls_empty _ (ls_rel_refl _ _) Ho) as (b & Hb2 & _).
+  congruence.
+Qed.
+
+Lemma writes_in_weaken : forall (P Q : Z -> Prop) ops, (forall l, P l -> Q l) ->
+  Forall (writes_in P) ops -> Forall (writes_in Q) ops.
+Proof.
+  intros P Q ops H. apply Forall_impl. intros o (l & m & -> & HP). exists l, m. auto.
+Qed.
+
+Lemma trailing_disable_builds : forall g fr D D' Ad L E st,
+  inserted (fun ev => ev_comment ev = trailing_disable L E) D D' Ad ->
+  build_events g fr D = Ok st -> exists st', build_events g fr D' = Ok st'.
+Proof.
+  intros g fr D D' Ad L E st Hins Hb.
+  pose proof (inserted_in _ _ _ _ Hins Ad (incl_refl _)) as Hins2.
+  eapply insert_sets_builds with (2 := Hins2); [|exact Hb].
+  intros ev [|n] [Hc Hin].
+  - eapply trailing_disable_event_ign. exact Hc.
+  - eapply writes_in_weaken; [|apply (trailing_disable_event_writes ev L E Ad n Hc Hin)]. auto.
+Qed.
+
+Lemma trailing_ignore_builds : forall g fr D D' Ad L st,
+  inserted (fun ev => ev_comment ev = trailing_ignore L) D D' Ad ->
+  build_events g fr D = Ok st -> exists st', build_events g fr D' = Ok st'.
+Proof.
+  intros g fr D D' Ad L st Hins Hb.
+  pose proof (inserted_in _ _ _ _ Hins Ad (incl_refl _)) as Hins2.
+  eapply insert_sets_builds with (2 := Hins2); [|exact Hb].
+  intros ev [|n] [Hc Hin].
+  - eapply writes_in_weaken; [|apply (trailing_ignore_event_writes ev L Ad Hc Hin)]. auto.
+  - eapply trailing_ignore_event_dis. exact Hc.
+Qed.
+
+(* ------------------------------------------------------------------------------------------------ *)
+(* Stand-alone directives                                                                           *)
+
+Definition sets_only (ops : list lsop) : Prop :=
+  Forall (fun o => match o with OSet _ _ => True | ORange _ _ => False end) ops.
+Definition ranges_at (p : Z) (ops : list lsop) : Prop :=
+  Forall (fun o => exists m, o = ORange p m) ops.
+
+Lemma range_last_app : forall a b l,
+  range_last (a ++ b) l = match range_last b l with Some v => Some v | None => range_last a l end.
+Proof.
+  induction a as [|o r IH]; intros b l; simpl.
+  - destruct (range_last b l); reflexivity.
+  - destruct o as [l' m|p m]; rewrite IH; destruct (range_last b l); reflexivity.
+Qed.
+
+Lemma mono_weaken : forall ops b b', b <= b' -> mono_from b' ops -> mono_from b ops.
+Proof.
+  induction ops as [|o r IH]; intros b b' Hb H; simpl in *; auto.
+  destruct o; [eapply IH; eauto|]. destruct H. split; [lia | assumption].
+Qed.
+
+Lemma mono_from_app : forall a c b, mono_from b (a ++ c) <-> mono_from b a /\ mono_from (last_bound b a) c.
+Proof.
+  induction a as [|o r IH]; intros c b; simpl.
+  - tauto.
+  - destruct o; [apply IH|]. rewrite IH. tauto.
+Qed.
+
+Lemma last_bound_ge : forall ops b, mono_from b ops -> b <= last_bound b ops.
+Proof.
+  induction ops as [|o r IH]; intros b H; simpl in *; [lia|].
+  destruct o; [apply IH; assumption|]. destruct H. specialize (IH _ H0). lia.
+Qed.
+
+Lemma mono_range_none : forall ops b l, mono_from b ops -> l < b -> range_last ops l = None.
+Proof.
+  induction ops as [|o r IH]; intros b l H Hl; simpl in *; [reflexivity|].
+  destruct o as [l' m|p m]; [eapply IH; eauto|]. destruct H as [Hbp H].
+  rewrite (IH p l H); [|lia]. destruct (p <=? l) eqn:E; [apply Z.leb_le in E; lia | reflexivity].
+Qed.
+
+Lemma sets_only_range : forall ops l, sets_only ops -> range_last ops l = None.
+Proof.
+  induction 1 as [|o r Ho Hr IH]; simpl; [reflexivity|]. destruct o; [exact IH | contradiction].
+Qed.
+
+Lemma sets_only_bound : forall ops b, sets_only ops -> last_bound b ops = b.
+Proof.
+  induction 1 as [|o r Ho Hr IH]; simpl; [reflexivity|]. destruct o; [exact IH | contradiction].
+Qed.
+
+Lemma sets_only_mono : forall ops b, sets_only ops -> mono_from b ops.
+Proof.
+  induction 1 as [|o r Ho Hr IH]; simpl; [exact I|]. destruct o; [exact IH | contradiction].
+Qed.
+
+Lemma last_set_range_skip : forall a p m b l, last_set (a ++ ORange p m :: b) l = last_set (a ++ b) l.
+Proof. intros. rewrite !last_set_app. simpl. reflexivity. Qed.
+
+Definition rl_or (ops : list lsop) (l : Z) : bool :=
+  match range_last ops l with Some m => m | None => false end.
+
+Lemma run_from_empty : forall ops ls, mono_from 0 ops -> run_ops ls_empty ops = Ok ls ->
+  inv_b (last_bound 0 ops) ls /\ (forall l, sem ls l = rl_or ops l) /\
+  (forall l, dict_get l (ls_lines ls) = last_set ops l).
+Proof.
+  intros ops ls Hm Hr.
+  destruct (run_ops_sem ops ls_empty 0) as (ls' & H1 & H2 & H3 & H4); auto; [lia | apply inv_b_empty|].
+  rewrite Hr in H1. inversion H1; subst ls'. split; [exact H3|]. split.
+  - intros l. rewrite H4. unfold rl_or. destruct (range_last ops l); reflexivity.
+  - intros l. rewrite (run_ops_lines _ _ _ Hr l). simpl. destruct (last_set ops l); reflexivity.
+Qed.
+
+Lemma contains_from_empty : forall ops ls l, mono_from 0 ops -> run_ops ls_empty ops = Ok ls ->
+  contains ls l = match last_set ops l with Some b => b | None => rl_or ops l end.
+Proof.
+  intros ops ls l Hm Hr. destruct (run_from_empty _ _ Hm Hr) as (Hi & Hs & Hd).
+  rewrite contains_sem; [|apply Hi]. rewrite Hd, Hs. reflexivity.
+Qed.
+
+(* disable at L ... enable at M *)
+Lemma ops_core_pair : forall X Omid O2 L M ls1 a b,
+  mono_from 0 (X ++ ORange L true :: Omid ++ ORange M false :: O2) ->
+  sets_only Omid -> L < M ->
+  run_ops ls_empty X = Ok ls1 -> Nat.odd (length (ls_trans ls1)) = false ->
+  run_ops ls_empty (X ++ Omid ++ O2) = Ok a ->
+  run_ops ls_empty (X ++ ORange L true :: Omid ++ ORange M false :: O2) = Ok b ->
+  forall l, contains b l =
+    if (L <=? l) && (l <? M)
+    then match dict_get l (ls_lines a) with Some v => v | None => true end
+    else contains a l.
+Proof.
+  intros X Omid O2 L M ls1 a b Hm Hso HLM Hr1 Hoff Hra Hrb l.
+  pose proof Hm as Hm0.
+  apply mono_from_app in Hm. destruct Hm as [HmX Hm]. simpl in Hm. destruct Hm as [HbX Hm].
+  apply mono_from_app in Hm. destruct Hm as [_ Hm]. rewrite (sets_only_bound _ _ Hso) in Hm.
+  simpl in Hm. destruct Hm as [_ HmO2].
+  assert (HmA : mono_from 0 (X ++ Omid ++ O2)).
+  { apply mono_from_app. split; [exact HmX|]. apply mono_from_app. split; [apply sets_only_mono; exact Hso|].
+    rewrite (sets_only_bound _ _ Hso). eapply mono_weaken; [|exact HmO2]. lia. }
+  destruct (run_from_empty _ _ HmX Hr1) as (Hi1 & Hs1 & _).
+  assert (HoffX : forall l', L <= l' -> rl_or X l' = false).
+  { intros l' Hl'. rewrite <- Hs1. unfold sem. rewrite count_le_all; [exact Hoff|].
+    destruct Hi1 as [_ Hall]. eapply Forall_impl; [|exact Hall]. simpl. intros. lia. }
+  destruct (run_from_empty _ _ HmA Hra) as (_ & _ & Hda).
+  rewrite (contains_from_empty _ _ l Hm0 Hrb), (contains_from_empty _ _ l HmA Hra), Hda.
+  replace (last_set (X ++ ORange L true :: Omid ++ ORange M false :: O2) l)
+    with (last_set (X ++ Omid ++ O2) l).
+  2:{ rewrite last_set_range_skip. rewrite !app_assoc. rewrite last_set_range_skip. reflexivity. }
+  destruct (last_set (X ++ Omid ++ O2) l) as [v|]; [destruct ((L <=? l) && (l <? M)); reflexivity|].
+  unfold rl_or.
+  change (X ++ ORange L true :: Omid ++ ORange M false :: O2)
+    with (X ++ [ORange L true] ++ Omid ++ [ORange M false] ++ O2).
+  rewrite !range_last_app. rewrite (sets_only_range _ l Hso). simpl.
+  destruct (L <=? l) eqn:E1; destruct (l <? M) eqn:E2; simpl.
+  - apply Z.ltb_lt in E2. rewrite (mono_range_none _ _ _ HmO2 E2).
+    destruct (M <=? l) eqn:E3; [apply Z.leb_le in E3; lia|]. reflexivity.
+  - apply Z.ltb_ge in E2. apply Z.leb_le in E1.
+    destruct (range_last O2 l); [reflexivity|].
+    destruct (M <=? l) eqn:E3; [|apply Z.leb_gt in E3; lia].
+    specialize (HoffX l E1). unfold rl_or in HoffX. rewrite HoffX. reflexivity.
+  - apply Z.ltb_lt in E2. rewrite (mono_range_none _ _ _ HmO2 E2).
+    destruct (M <=? l) eqn:E3; [apply Z.leb_le in E3; lia|]. reflexivity.
+  - apply Z.ltb_ge in E2. apply Z.leb_gt in E1. lia.
+Qed.
+
+(* disable (or type: ignore) at L with nothing that ends it *)
+Lemma ops_core_eof : forall X O2 L a b,
+  mono_from 0 (X ++ ORange L true :: O2) ->
+  (forall l m, range_last O2 l = Some m -> m = true) ->
+  run_ops ls_empty (X ++ O2) = Ok a ->
+  run_ops ls_empty (X ++ ORange L true :: O2) = Ok b ->
+  forall l, contains b l =
+    if L <=? l
+    then match dict_get l (ls_lines a) with Some v => v | None => true end
+    else contains a l.
+Proof.
+  intros X O2 L a b Hm Htrue Hra Hrb l.
+  pose proof Hm as Hm0.
+  apply mono_from_app in Hm. destruct Hm as [HmX Hm]. simpl in Hm. destruct Hm as [HbX HmO2].
+  assert (HmA : mono_from 0 (X ++ O2)).
+  { apply mono_from_app. split; [exact HmX|]. eapply mono_weaken; [|exact HmO2]. exact HbX. }
+  destruct (run_from_empty _ _ HmA Hra) as (_ & _ & Hda).
+  rewrite (contains_from_empty _ _ l Hm0 Hrb), (contains_from_empty _ _ l HmA Hra), Hda.
+  rewrite last_set_range_skip.
+  destruct (last_set (X ++ O2) l) as [v|]; [destruct (L <=? l); reflexivity|].
+  unfold rl_or. change (X ++ ORange L true :: O2) with (X ++ [ORange L true] ++ O2).
+  rewrite !range_last_app. simpl.
+  destruct (L <=? l) eqn:E1.
+  - destruct (range_last O2 l) as [m|] eqn:E2; [apply (Htrue _ _ E2) | reflexivity].
+  - apply Z.leb_gt in E1. rewrite (mono_range_none _ _ _ HmO2 E1). reflexivity.
+Qed.
+
+(* shapes of the histories produced by one comment *)
+Lemma name_ops_shape_open : forall ic s line dis n, ranges_at line (name_ops ic s line true dis n).
+Proof.
+  intros. unfold name_ops, ranges_at. destruct (accepted_name n && keep ic n); repeat constructor. eauto.
+Qed.
+Lemma name_ops_shape_closed : forall ic s line dis n, sets_only (name_ops ic s line false dis n).
+Proof.
+  intros. unfold name_ops, sets_only. destruct (accepted_name n && keep ic n); [|constructor].
+  destruct (negb (adjust_line line n s =? line)); repeat constructor.
+Qed.
+Lemma names_ops_shape_open : forall ic s line dis names m, ranges_at line (names_ops ic s line true dis names m).
+Proof.
+  induction names as [|n r IH]; intros m; unfold names_ops; simpl; [constructor|].
+  apply Forall_app. split; [|apply IH]. destruct (m =? n)%N; [apply name_ops_shape_open | constructor].
+Qed.
+Lemma names_ops_shape_closed : forall ic s line dis names m, sets_only (names_ops ic s line false dis names m).
+Proof.
+  induction names as [|n r IH]; intros m; unfold names_ops; simpl; [constructor|].
+  apply Forall_app. split; [|apply IH]. destruct (m =? n)%N; [apply name_ops_shape_closed | constructor].
+Qed.
+Lemma cmds_ops_shape_open : forall ic s line cmds m, ranges_at line (cmds_ops ic s line true cmds m).
+Proof.
+  induction cmds as [|c r IH]; intros m; simpl; [constructor|].
+  destruct c; try (apply Forall_app; split; [apply names_ops_shape_open | apply IH]); [apply IH | constructor].
+Qed.
+Lemma cmds_ops_shape_closed : forall ic s line cmds m, sets_only (cmds_ops ic s line false cmds m).
+Proof.
+  induction cmds as [|c r IH]; intros m; simpl; [constructor|].
+  destruct c; try (apply Forall_app; split; [apply names_ops_shape_closed | apply IH]); [apply IH | constructor].
+Qed.
+
+Lemma event_ops_shape_open : forall ev T, c_open (ev_comment ev) = true ->
+  ranges_at (c_line (ev_comment ev)) (event_ops ev T).
+Proof.
+  intros ev T H. unfold event_ops. rewrite H.
+  destruct (c_body (ev_comment ev)), T; try constructor; eauto; try constructor.
+  apply cmds_ops_shape_open.
+Qed.
+Lemma event_ops_shape_closed : forall ev T, c_open (ev_comment ev) = false -> sets_only (event_ops ev T).
+Proof.
+  intros ev T H. unfold event_ops. rewrite H.
+  destruct (c_body (ev_comment ev)), T; try constructor; try constructor; try constructor.
+  apply cmds_ops_shape_closed.
+Qed.
+
+Lemma mono_ranges_at : forall ops p rest b, ranges_at p ops -> b <= p -> mono_from p rest ->
+  mono_from b (ops ++ rest).
+Proof.
+  induction ops as [|o r IH]; intros p rest b H Hb Hr; simpl.
+  - eapply mono_weaken; eauto.
+  - inversion H; subst. destruct H2 as [m ->]. split; [exact Hb|]. eapply IH; eauto. lia.
+Qed.
+
+Lemma mono_sets : forall ops rest b, sets_only ops -> mono_from b rest -> mono_from b (ops ++ rest).
+Proof.
+  intros. apply mono_from_app. split; [apply sets_only_mono; assumption|].
+  rewrite sets_only_bound; assumption.
+Qed.
+
+Lemma events_mono : forall T evs b, open_mono b evs -> mono_from b (events_ops evs T).
+Proof.
+  induction evs as [|ev r IH]; intros b H; simpl in *; [exact I|].
+  rewrite events_ops_cons. destruct (c_open (ev_comment ev)) eqn:E.
+  - destruct H as [Hb H]. eapply mono_ranges_at; [apply event_ops_shape_open; exact E | exact Hb | apply IH; exact H].
+  - apply mono_sets; [apply event_ops_shape_closed; exact E | apply IH; exact H].
+Qed.
+
+Lemma global_ops_shape : forall g T, ranges_at 0 (global_ops g T).
+Proof.
+  intros g [|m]; simpl; [constructor|]. induction g as [|n r IH]; simpl; [constructor|].
+  apply Forall_app. split; [|exact IH]. destruct (m =? n)%N; repeat constructor. eauto.
+Qed.
+
+Lemma all_ops_mono : forall g evs T, open_mono 0 evs -> mono_from 0 (all_ops g evs T).
+Proof.
+  intros. unfold all_ops. eapply mono_ranges_at; [apply global_ops_shape | lia | apply events_mono; assumption].
+Qed.
+
+Lemma open_mono_app : forall a c b, open_mono b (a ++ c) -> open_mono b a.
+Proof.
+  induction a as [|ev r IH]; intros c b H; simpl in *; [exact I|].
+  destruct (c_open (ev_comment ev)); [destruct H; split; eauto | eauto].
+Qed.
+
+Lemma cmds_ops_nomention : forall ic s line op cmds m, existsb (cmd_mentions m) cmds = false ->
+  cmds_ops ic s line op cmds m = [].
+Proof.
+  induction cmds as [|c r IH]; intros m H; simpl in *; [reflexivity|].
+  apply orb_false_iff in H. destruct H as [H1 H2].
+  destruct c as [ns|ns| |]; simpl in *; try reflexivity.
+  - rewrite names_ops_notmem; [|exact H1]. simpl. apply IH. exact H2.
+  - rewrite names_ops_notmem; [|exact H1]. simpl. apply IH. exact H2.
+  - apply IH. exact H2.
+Qed.
+
+Lemma event_ops_no_open_directive : forall ev E, open_directive_of E (ev_comment ev) = false ->
+  sets_only (event_ops ev (TDis E)).
+Proof.
+  intros ev E H. destruct (c_open (ev_comment ev)) eqn:Eo; [|apply event_ops_shape_closed; exact Eo].
+  unfold open_directive_of in H. rewrite Eo in H. simpl in H. unfold event_ops.
+  destruct (c_body (ev_comment ev)); try constructor.
+  rewrite cmds_ops_nomention; [constructor | exact H].
+Qed.
+
+Lemma events_ops_no_open_directive : forall D E,
+  Forall (fun ev => open_directive_of E (ev_comment ev) = false) D -> sets_only (events_ops D (TDis E)).
+Proof.
+  induction 1; unfold events_ops; simpl; [constructor|].
+  apply Forall_app. split; [apply event_ops_no_open_directive; assumption | assumption].
+Qed.
+
+Lemma standalone_event_ops : forall ic s e L E dis T,
+  accepted_name E = true ->
+  event_ops (mkE false s e (mkC L (Pytype [if dis then CDisable [E] else CEnable [E]]) true)) T =
+  match T with TDis n => if (n =? E)%N then [ORange L dis] else [] | TIgn => [] end.
+Proof.
+  intros ic s e L E dis T Hacc. unfold event_ops. simpl. destruct T as [|n]; [destruct dis; reflexivity|].
+  destruct dis; simpl; unfold nodup_n; simpl; unfold names_ops; simpl;
+    (destruct (n =? E)%N eqn:E1; [|reflexivity]); apply N.eqb_eq in E1; subst;
+    unfold name_ops; rewrite Hacc; reflexivity.
+Qed.
+
+Lemma all_ops_app : forall g a b T, all_ops g (a ++ b) T = all_ops g a T ++ events_ops b T.
+Proof. intros. unfold all_ops. rewrite events_ops_app, app_assoc. reflexivity. Qed.
+
+Lemma target_neq : forall n E, TDis n <> TDis E -> (n =? E)%N = false.
+Proof. intros. apply N.eqb_neq. intros ->. apply H. reflexivity. Qed.
+
+(* state-level statement: stand-alone disable=E at L ... enable=E at M *)
+Lemma standalone_pair_state : forall g fr D1 Dmid D2 L M E sL eL sM eM st1 st st',
+  accepted_name E = true -> L < M ->
+  let evL := mkE false sL eL (standalone_disable L E) in
+  let evM := mkE false sM eM (standalone_enable M E) in
+  open_mono 0 (D1 ++ evL :: Dmid ++ evM :: D2) ->
+  Forall (fun ev => open_directive_of E (ev_comment ev) = false) Dmid ->
+  build_events g fr D1 = Ok st1 ->
+  Nat.odd (length (ls_trans (dis_get (d_dis st1) E))) = false ->
+  build_events g fr (D1 ++ Dmid ++ D2) = Ok st ->
+  build_events g fr (D1 ++ evL :: Dmid ++ evM :: D2) = Ok st' ->
+  (forall T, T <> TDis E -> ls_of st' T = ls_of st T) /\
+  (forall l, contains (dis_get (d_dis st') E) l =
+     if (L <=? l) && (l <? M)
+     then match dict_get l (ls_lines (dis_get (d_dis st) E)) with Some v => v | None => true end
+     else contains (dis_get (d_dis st) E) l).
+Proof.
+  intros g fr D1 Dmid D2 L M E sL eL sM eM st1 st st' Hacc HLM evL evM Hmono Hmid Hb1 Hoff Hb Hb'.
+  destruct (build_ops _ _ _ _ Hb1) as [Ho1 _].
+  destruct (build_ops _ _ _ _ Hb) as [Ho _].
+  destruct (build_ops _ _ _ _ Hb') as [Ho' _].
+  assert (HevL : forall T, event_ops evL T = match T with TDis n => if (n =? E)%N then [ORange L true] else [] | TIgn => [] end).
+  { intros T. apply (standalone_event_ops false sL eL L E true T Hacc). }
+  assert (HevM : forall T, event_ops evM T = match T with TDis n => if (n =? E)%N then [ORange M false] else [] | TIgn => [] end).
+  { intros T. apply (standalone_event_ops false sM eM M E false T Hacc). }
+  assert (Hall' : forall T, all_ops g (D1 ++ evL :: Dmid ++ evM :: D2) T =
+            all_ops g D1 T ++ event_ops evL T ++ events_ops Dmid T ++ event_ops evM T ++ events_ops D2 T).
+  { intros T. rewrite all_ops_app, events_ops_cons, events_ops_app, events_ops_cons. reflexivity. }
+  assert (Hall : forall T, all_ops g (D1 ++ Dmid ++ D2) T = all_ops g D1 T ++ events_ops Dmid T ++ events_ops D2 T).
+  { intros T. rewrite all_ops_app, events_ops_app. reflexivity. }
+  split.
+  - intros T HT. specialize (Ho T). specialize (Ho' T). rewrite Hall in Ho. rewrite Hall', HevL, HevM in Ho'.
+    destruct T as [|n]; simpl in Ho'; [congruence|].
+    rewrite (target_neq _ _ HT) in Ho'. simpl in Ho'. congruence.
+  - specialize (Ho (TDis E)). specialize (Ho' (TDis E)). specialize (Ho1 (TDis E)).
+    rewrite Hall in Ho. rewrite Hall', HevL, HevM, N.eqb_refl in Ho'. simpl in Ho'. simpl ls_of in *.
+    apply (ops_core_pair (all_ops g D1 (TDis E)) (events_ops Dmid (TDis E)) (events_ops D2 (TDis E)) L M
+             (dis_get (d_dis st1) E)); auto.
+    + pose proof (all_ops_mono g _ (TDis E) Hmono) as Hm. rewrite Hall', HevL, HevM, N.eqb_refl in Hm. exact Hm.
+    + apply events_ops_no_open_directive. exact Hmid.
+Qed.
+
+(* stand-alone disable=E at L that nothing ends *)
+Lemma standalone_eof_state : forall g fr D1 D2 L E sL eL st st',
+  accepted_name E = true ->
+  let evL := mkE false sL eL (standalone_disable L E) in
+  open_mono 0 (D1 ++ evL :: D2) ->
+  Forall (fun ev => open_directive_of E (ev_comment ev) = false) D2 ->
+  build_events g fr (D1 ++ D2) = Ok st ->
+  build_events g fr (D1 ++ evL :: D2) = Ok st' ->
+  (forall T, T <> TDis E -> ls_of st' T = ls_of st T) /\
+  (forall l, contains (dis_get (d_dis st') E) l =
+     if L <=? l
+     then match dict_get l (ls_lines (dis_get (d_dis st) E)) with Some v => v | None => true end
+     else contains (dis_get (d_dis st) E) l).
+Proof.
+  intros g fr D1 D2 L E sL eL st st' Hacc evL Hmono HD2 Hb Hb'.
+  destruct (build_ops _ _ _ _ Hb) as [Ho _].
+  destruct (build_ops _ _ _ _ Hb') as [Ho' _].
+  assert (HevL : forall T, event_ops evL T = match T with TDis n => if (n =? E)%N then [ORange L true] else [] | TIgn => [] end).
+  { intros T. apply (standalone_event_ops false sL eL L E true T Hacc). }
+  assert (Hall' : forall T, all_ops g (D1 ++ evL :: D2) T = all_ops g D1 T ++ event_ops evL T ++ events_ops D2 T).
+  { intros T. rewrite all_ops_app, events_ops_cons. reflexivity. }
+  split.
+  - intros T HT. specialize (Ho T). specialize (Ho' T). rewrite all_ops_app in Ho. rewrite Hall', HevL in Ho'.
+    destruct T as [|n]; simpl in Ho'; [congruence|].
+    rewrite (target_neq _ _ HT) in Ho'. simpl in Ho'. congruence.
+  - specialize (Ho (TDis E)). specialize (Ho' (TDis E)).
+    rewrite all_ops_app in Ho. rewrite Hall', HevL, N.eqb_refl in Ho'. simpl in Ho'. simpl ls_of in *.
+    apply (ops_core_eof (all_ops g D1 (TDis E)) (events_ops D2 (TDis E)) L); auto.
+    + pose proof (all_ops_mono g _ (TDis E) Hmono) as Hm. rewrite Hall', HevL, N.eqb_refl in Hm. exact Hm.
+    + intros l m H. rewrite sets_only_range in H; [discriminate|]. apply events_ops_no_open_directive. exact HD2.
+Qed.
+
+(* stand-alone "# type: ignore" at L: every line from L on is ignored, nothing before changes *)
+Lemma ign_ranges_true : forall D l m, range_last (events_ops D TIgn) l = Some m -> m = true.
+Proof.
+  induction D as [|ev r IH]; intros l m H; [discriminate|].
+  rewrite events_ops_cons, range_last_app in H.
+  destruct (range_last (events_ops r TIgn) l) eqn:E; [inversion H; subst; eapply IH; eauto|].
+  unfold event_ops in H. destruct (c_body (ev_comment ev)); try discriminate.
+  destruct (c_open (ev_comment ev)); simpl in H; [|discriminate].
+  destruct (c_line (ev_comment ev) <=? l); inversion H. reflexivity.
+Qed.
+
+Lemma ign_dict_true : forall g D st l v, build_events g [] D = Ok st -> True.
+Proof. auto. Qed.
+
+Lemma standalone_ignore_state : forall g fr D1 D2 L sL eL st st',
+  let evL := mkE false sL eL (standalone_ignore L) in
+  open_mono 0 (D1 ++ evL :: D2) ->
+  build_events g fr (D1 ++ D2) = Ok st ->
+  build_events g fr (D1 ++ evL :: D2) = Ok st' ->
+  (forall n, dis_get (d_dis st') n = dis_get (d_dis st) n) /\
+  (forall l, contains (d_ignore st') l = if L <=? l then true else contains (d_ignore st) l).
+Proof.
+  intros g fr D1 D2 L sL eL st st' evL Hmono Hb Hb'.
+  destruct (build_ops _ _ _ _ Hb) as [Ho _].
+  destruct (build_ops _ _ _ _ Hb') as [Ho' _].
+  assert (Hall' : forall T, all_ops g (D1 ++ evL :: D2) T = all_ops g D1 T ++ event_ops evL T ++ events_ops D2 T).
+  { intros T. rewrite all_ops_app, events_ops_cons. reflexivity. }
+  split.
+  - intros n. specialize (Ho (TDis n)). specialize (Ho' (TDis n)). rewrite all_ops_app in Ho.
+    rewrite Hall' in Ho'. simpl in Ho'. simpl in Ho. congruence.
+  - intros l. specialize (Ho TIgn). specialize (Ho' TIgn). rewrite all_ops_app in Ho. rewrite Hall' in Ho'.
+    simpl in Ho, Ho'.
+    rewrite (ops_core_eof (all_ops g D1 TIgn) (events_ops D2 TIgn) L (d_ignore st) (d_ignore st')); auto.
+    + destruct (L <=? l); [|reflexivity].
+      destruct (dict_get l (ls_lines (d_ignore st))) as [v|] eqn:Ed; [|reflexivity].
+      rewrite (run_ops_lines _ _ _ Ho l) in Ed. simpl in Ed.
+      destruct (last_set (events_ops D1 TIgn ++ events_ops D2 TIgn) l) as [w|] eqn:Ew; [|discriminate].
+      inversion Ed; subst. eapply sets_to_last; [|exact Ew].
+      apply sets_to_app; apply events_ops_ign_true.
+    + pose proof (all_ops_mono g _ TIgn Hmono) as Hm. rewrite Hall' in Hm. exact Hm.
+    + apply ign_ranges_true.
 Qed.
